@@ -63,6 +63,9 @@ W = [
      [{'_id': 0, 'k': True}], [{'_id': 10, 'fk': 1}],
      [{'$lookup': {'from': 'other', 'localField': 'k', 'foreignField': 'fk', 'as': 'j'}}],
      [{'_id': 0, 'k': True, 'j': []}]),
+    ('limitdouble', '$limit / $skip reject a double without fraction ($limit: 2.0: "Expected an '
+     'integer"); MongoDB takes it as the integer it denotes',
+     D, [], [{'$limit': 2.0}], D[:2]),
     ('multiopstage', 'a stage document with no or several operators is accepted (MongoDB: "a '
      'pipeline stage specification object must contain exactly one field")',
      D, [], [{'$skip': 1, '$limit': 1}], 'E'),
